@@ -66,7 +66,7 @@ def run(tier):
             runs.append({"addresses": n, "depth": depth, "behaviours": r["stats"]["behaviours"], "steps": r["stats"]["steps"],
                          "ops": r["stats"]["ops"], "file_prefixes_loaded": r["stats"]["file_prefixes_loaded"],
                          "diverging": sum(r["signatures"].values())})
-            for s in r.get("samples", [])[:1]:
+            for s in (r.get("samples") or [])[:1]:
                 res.sample({"call_sequence": [x["ret"] for x in json.loads(s)["ops"]]})
             for k, d in enumerate(r["divergences"]):
                 f = match_finding("C20", d["msg"])
